@@ -1,5 +1,7 @@
 package main
 
+import "strings"
+
 var specs = map[string]*Spec{}
 
 func reg(s *Spec) { specs[s.ID] = s }
@@ -244,7 +246,7 @@ func init() {
 				for _, L := range []int64{1, 6, 8, 10, 12} {
 					out = append(out, Inst{Pkg: "knxnet", Fn: "HarnessC16UDP", Args: []int64{1, 3, L}, NoNative: true, Note: "UDP receiver: arbitrary datagram first"})
 				}
-				out = append(out, Inst{Pkg: "knxnet", Fn: "HarnessC16TCPBad", Args: []int64{0, 1}, NoNative: true}, Inst{Pkg: "knxnet", Fn: "HarnessC16TCPBad", Args: []int64{1, 1}, NoNative: true})
+				out = append(out, Inst{Pkg: "knxnet", Fn: "HarnessC16TCPBad", Args: []int64{0, 1}, NoNative: true, UnwindIsHang: true}, Inst{Pkg: "knxnet", Fn: "HarnessC16TCPBad", Args: []int64{1, 1}, NoNative: true, UnwindIsHang: true})
 			}
 			codes := []int64{0x2B, 0x11, 0x29, 0x2E, 0x10, 0x2D, 0x2F, 0x77, -1}
 			for _, code := range codes {
@@ -759,11 +761,19 @@ func init() {
 		}
 		return out
 	}
+	hang := func(in []Inst) []Inst {
+		for i := range in {
+			if strings.HasPrefix(in[i].Fn, "HarnessC16") {
+				in[i].UnwindIsHang = true
+			}
+		}
+		return in
+	}
 	reg(&Spec{
 		ID:       "C16",
 		NoNative: true,
-		Quick:    func(l *loaded) []Inst { return c16(false) },
-		Thorough: func(l *loaded) []Inst { return c16(true) },
+		Quick:    func(l *loaded) []Inst { return hang(c16(false)) },
+		Thorough: func(l *loaded) []Inst { return hang(c16(true)) },
 		Covers:   []string{"C16.tcp.end", "C16.tcpbad.end", "C16.udp.end", "C16.hostinfo.nat", "C16.hostinfo.local", "C16.send.concurrent.end", "C16.close.end", "C16.origin.accepted", "C16.origin.dropped"},
 		Bounds:   "real serveTCPSocket (with the real bufio.Reader and io.ReadFull) on streams of 1..2 (thorough 3) concatenated frames of four service types with symbolic field values, the Read stub returning: every placement of up to 2 (3) cut points, 1-byte dribble, or everything at once, then EOF; a frame with arbitrary body followed by a good one; a header announcing total length 0..5 (symbolic); real serveUDPSocket on 1..2 (3) datagrams, optionally preceded by an arbitrary symbolic datagram of 1..12 bytes into the reused 1024-byte buffer; Tunnel.hostInfo through requestConn for UDP/TCP/other sockets with and without SendLocalAddress; 2 (thorough 3) goroutines sending different frames through one TunnelSocket whose Write is a scheduling point",
 		Outside:  "50-frame streams (the receiver keeps no state between frames other than bufio's buffer); more than 3 cut points at once; more than 2 (thorough 3) concurrent senders; an application that never reads again after Close (a receiver blocked on an undelivered frame ends only when that frame is read; decided here: Close with 0..2 decoded frames pending and a reader that drains); kernel sockets, Dial*/Listen*, address parsing inside HostInfoFromAddress (redirected to an environment function)",
